@@ -897,6 +897,10 @@ func (r *foRun) oracleC18() {
 	out := r.e.out
 	out.NonTrivial = len(r.ops) > 0
 
+	if !r.sc.Cfg.Stats {
+		return // the shrinker may have switched the tracker off
+	}
+
 	got := map[string]float64{}
 
 	for _, s := range r.stats {
